@@ -262,8 +262,9 @@ func genGoodLit(r *core.Rng, t reflect.Type, mapper int, depth int) lit {
 	case reflect.Bool, reflect.Int, reflect.Int8, reflect.Int16, reflect.Int32, reflect.Int64, reflect.Uint, reflect.Uint8, reflect.Uint16, reflect.Uint32, reflect.Uint64,
 		reflect.Float32, reflect.Float64, reflect.String:
 		p := genPrimLit(r)
-		if !fixedNamedUint64() && t == catTypes["MyU64"] {
-			p = primLit{js: "5", kind: "num", num: 5, numOK: true}
+		if !fixedNamedUint64() && (t.Kind() == reflect.Uint64 || t.Kind() == reflect.Uint) && (p.numOK && !(p.num >= 0)) {
+			// negative → wraps above MaxInt64, which named / pointed-to uint64 values show as negative (known finding C13-named-uint64-valueof)
+			p = primLit{js: "5", kind: "num", num: 5, numOK: true, str: "5", strOK: true, truthy: true}
 		}
 		v, known, _ := primInto(p, t)
 		return lit{JS: p.js, View: v, Known: known, Kind: p.kind}
@@ -300,6 +301,9 @@ func genGoodLit(r *core.Rng, t reflect.Type, mapper int, depth int) lit {
 		if l.Kind == "null" || l.Kind == "undef" {
 			// null/undefined written into a pointer: nil pointer
 			return lit{JS: l.JS, View: "null", Known: true, Kind: l.Kind}
+		}
+		if strings.HasPrefix(l.View, "n:") || strings.HasPrefix(l.View, "s:") || strings.HasPrefix(l.View, "b:") {
+			l.View = "W(" + l.View + ")" // a pointer to a primitive shows as a Number/String/Boolean-like host object
 		}
 		return l
 	case reflect.Struct:
@@ -464,6 +468,14 @@ func genWrongLit(r *core.Rng, t reflect.Type) lit {
 		return lit{JS: core.Pick(r, []string{"5", "true", "1.5"}), Fail: true, Kind: "wrong-prim"}
 	case reflect.Func:
 		return lit{JS: core.Pick(r, prims), Fail: true, Kind: "wrong-prim"}
+	}
+	dt := t
+	for dt.Kind() == reflect.Ptr {
+		dt = dt.Elem()
+	}
+	if dt.Kind() == reflect.Map || dt.Kind() == reflect.Struct && dt != typBigInt.Elem() && t.Kind() == reflect.Ptr {
+		// (an object with arbitrary property names would put the NaN key into float-keyed maps)
+		return lit{JS: core.Pick(r, prims), Kind: "wrong-prim"}
 	}
 	// primitive targets: objects, arrays, functions, symbols — any outcome but a Go panic
 	odd := []string{"({})", "[]", "[1,2]", "({valueOf:function(){return 7}})", "(function(){})", "new Date(0)", "new Map()", "/re/", "new Number(3)"}
